@@ -1,20 +1,98 @@
 //! C10: support maps (SupportMap trait, point clouds, RoundShape, special support maps, feature maps).
+//! Protocol function names are `<shape>_<mode>`; mode = local | toward | posed | ptoward:
+//!   local   : <shape args> dir          -> local_support_point(dir)
+//!   toward  : <shape args> dir(unit)    -> local_support_point_toward(Unit::new_unchecked(dir))
+//!   posed   : <shape args> iso dir      -> support_point(iso, dir)
+//!   ptoward : <shape args> iso dir(unit)-> support_point_toward(iso, Unit::new_unchecked(dir))
 use crate::util::*;
-use crate::p3::shape::{Cuboid, SupportMap};
-use crate::p2::shape::SupportMap as SupportMap2;
+use crate::p3::na::Unit;
+use crate::p3::shape as s3;
+use crate::p2::shape as s2;
+use crate::p3::shape::SupportMap as SM3;
+use crate::p2::shape::SupportMap as SM2;
+use crate::p3::query::gjk::{ConstantOrigin, ConstantPoint, DilatedShape};
 
-type C2 = crate::p2::shape::Cuboid;
+fn sup3<S: SM3 + ?Sized>(s: &S, mode: &str, a: &mut Args) -> String {
+    match mode {
+        "local" => { let d = d3::v(a); d3::fp(&s.local_support_point(&d)) }
+        "toward" => { let d = d3::v(a); d3::fp(&s.local_support_point_toward(&Unit::new_unchecked(d))) }
+        "posed" => { let m = d3::iso(a); let d = d3::v(a); d3::fp(&s.support_point(&m, &d)) }
+        "ptoward" => { let m = d3::iso(a); let d = d3::v(a); d3::fp(&s.support_point_toward(&m, &Unit::new_unchecked(d))) }
+        _ => "nomode".into(),
+    }
+}
+fn sup2<S: SM2 + ?Sized>(s: &S, mode: &str, a: &mut Args) -> String {
+    use crate::p2::na::Unit;
+    match mode {
+        "local" => { let d = d2::v(a); d2::fp(&s.local_support_point(&d)) }
+        "toward" => { let d = d2::v(a); d2::fp(&s.local_support_point_toward(&Unit::new_unchecked(d))) }
+        "posed" => { let m = d2::iso(a); let d = d2::v(a); d2::fp(&s.support_point(&m, &d)) }
+        "ptoward" => { let m = d2::iso(a); let d = d2::v(a); d2::fp(&s.support_point_toward(&m, &Unit::new_unchecked(d))) }
+        _ => "nomode".into(),
+    }
+}
+
+fn pts3(a: &mut Args) -> Vec<d3::Point<f64>> { let n = a.u(); (0..n).map(|_| d3::p(a)).collect() }
+fn pts2(a: &mut Args) -> Vec<d2::Point<f64>> { let n = a.u(); (0..n).map(|_| d2::p(a)).collect() }
+fn idx3(a: &mut Args) -> Vec<[u32; 3]> { let n = a.u(); (0..n).map(|_| [a.u() as u32, a.u() as u32, a.u() as u32]).collect() }
+fn polyhedron(a: &mut Args) -> s3::ConvexPolyhedron {
+    let p = pts3(a); let i = idx3(a);
+    let poly = s3::ConvexPolyhedron::from_convex_mesh(p.clone(), &i).expect("from_convex_mesh");
+    assert!(poly.points() == &p[..], "constructor changed the points");
+    poly
+}
+fn polygon(a: &mut Args) -> s2::ConvexPolygon {
+    let p = pts2(a);
+    let poly = s2::ConvexPolygon::from_convex_polyline_unmodified(p.clone()).expect("from_convex_polyline_unmodified");
+    assert!(poly.points() == &p[..], "constructor changed the points");
+    poly
+}
 
 pub fn exec(func: &str, a: &mut Args) -> String {
-    match func {
-        "cuboid_local" => { let he = d3::v(a); let d = d3::v(a); d3::fp(&Cuboid::new(he).local_support_point(&d)) }
-        "cuboid2_local" => { let he = d2::v(a); let d = d2::v(a); d2::fp(&C2::new(he).local_support_point(&d)) }
+    let (shape, mode) = match func.rfind('_') { Some(i) => (&func[..i], &func[i + 1..]), None => (func, "") };
+    match shape {
+        // ---- 3-D
+        "ball" => { let r = a.f(); sup3(&s3::Ball::new(r), mode, a) }
+        "cuboid" => { let he = d3::v(a); sup3(&s3::Cuboid::new(he), mode, a) }
+        "capsule" => { let p = d3::p(a); let q = d3::p(a); let r = a.f(); sup3(&s3::Capsule::new(p, q, r), mode, a) }
+        "segment" => { let p = d3::p(a); let q = d3::p(a); sup3(&s3::Segment::new(p, q), mode, a) }
+        "triangle" => { let p = d3::p(a); let q = d3::p(a); let r = d3::p(a); sup3(&s3::Triangle::new(p, q, r), mode, a) }
+        "cone" => { let hh = a.f(); let r = a.f(); sup3(&s3::Cone::new(hh, r), mode, a) }
+        "cylinder" => { let hh = a.f(); let r = a.f(); sup3(&s3::Cylinder::new(hh, r), mode, a) }
+        "polyhedron" => { let s = polyhedron(a); sup3(&s, mode, a) }
+        "cloud" => { // cloud_id: n pts dir -> point_cloud_support_point_id ; cloud_point -> point_cloud_support_point
+            let p = pts3(a); let d = d3::v(a);
+            match mode {
+                "id" => format!("{}", crate::p3::utils::point_cloud_support_point_id(&d, &p)),
+                "point" => d3::fp(&crate::p3::utils::point_cloud_support_point(&d, &p)),
+                _ => "nomode".into() } }
+        "roundcuboid" => { let he = d3::v(a); let br = a.f(); sup3(&s3::RoundShape { inner_shape: s3::Cuboid::new(he), border_radius: br }, mode, a) }
+        "roundtriangle" => { let p = d3::p(a); let q = d3::p(a); let r = d3::p(a); let br = a.f();
+            sup3(&s3::RoundShape { inner_shape: s3::Triangle::new(p, q, r), border_radius: br }, mode, a) }
+        "roundcylinder" => { let hh = a.f(); let r = a.f(); let br = a.f(); sup3(&s3::RoundShape { inner_shape: s3::Cylinder::new(hh, r), border_radius: br }, mode, a) }
+        "roundcone" => { let hh = a.f(); let r = a.f(); let br = a.f(); sup3(&s3::RoundShape { inner_shape: s3::Cone::new(hh, r), border_radius: br }, mode, a) }
+        "roundpolyhedron" => { let s = polyhedron(a); let br = a.f(); sup3(&s3::RoundShape { inner_shape: s, border_radius: br }, mode, a) }
+        "dilatedcuboid" => { let he = d3::v(a); let br = a.f(); let c = s3::Cuboid::new(he); sup3(&DilatedShape { shape: &c, radius: br }, mode, a) }
+        "dilatedcapsule" => { let p = d3::p(a); let q = d3::p(a); let r = a.f(); let br = a.f(); let c = s3::Capsule::new(p, q, r); sup3(&DilatedShape { shape: &c, radius: br }, mode, a) }
+        "constantpoint" => { let p = d3::p(a); sup3(&ConstantPoint(p), mode, a) }
+        "constantorigin" => sup3(&ConstantOrigin, mode, a),
+        // ---- 2-D
+        "ball2" => { let r = a.f(); sup2(&s2::Ball::new(r), mode, a) }
+        "cuboid2" => { let he = d2::v(a); sup2(&s2::Cuboid::new(he), mode, a) }
+        "capsule2" => { let p = d2::p(a); let q = d2::p(a); let r = a.f(); sup2(&s2::Capsule::new(p, q, r), mode, a) }
+        "segment2" => { let p = d2::p(a); let q = d2::p(a); sup2(&s2::Segment::new(p, q), mode, a) }
+        "triangle2" => { let p = d2::p(a); let q = d2::p(a); let r = d2::p(a); sup2(&s2::Triangle::new(p, q, r), mode, a) }
+        "polygon" => { let s = polygon(a); sup2(&s, mode, a) }
+        "roundcuboid2" => { let he = d2::v(a); let br = a.f(); sup2(&s2::RoundShape { inner_shape: s2::Cuboid::new(he), border_radius: br }, mode, a) }
+        "roundpolygon" => { let s = polygon(a); let br = a.f(); sup2(&s2::RoundShape { inner_shape: s, border_radius: br }, mode, a) }
         _ => "nofn".into(),
     }
 }
 
+// ------------------------------------------------------------------ generators
+
 /// a direction: lattice stream = axis-aligned / diagonal / ±0 components / ties; random stream = |dir| in [1e-3,1e3]
-/// plus near-zero components.
+/// plus near-zero and exactly-zero components.
 pub fn gen_dir3(r: &mut Rng, lat: bool) -> d3::Vector<f64> {
     if lat {
         let c = |r: &mut Rng| *r.pick(&[0.0, -0.0, 1.0, -1.0, 0.5, -0.5, 2.0, -2.0, 0.25, 3.0, -3.0]);
@@ -51,16 +129,158 @@ pub fn gen_dir2(r: &mut Rng, lat: bool) -> d2::Vector<f64> {
         v.normalize() * s
     }
 }
+/// unit directions for the `_toward` variants: exact axis/Pythagorean ones on the lattice stream, normalised otherwise
+fn gen_unit3(r: &mut Rng, lat: bool) -> d3::Vector<f64> {
+    if lat {
+        let mut v = d3::Vector::new(0.0, 0.0, 0.0);
+        match r.below(3) {
+            0 => { v[r.below(3) as usize] = if r.bool() { 1.0 } else { -1.0 }; for i in 0..3 { if v[i] == 0.0 && r.bool() { v[i] = -0.0; } } }
+            1 => { let i = r.below(3) as usize; let j = (i + 1 + r.below(2) as usize) % 3;
+                   v[i] = if r.bool() { 0.6 } else { -0.6 }; v[j] = if r.bool() { 0.8 } else { -0.8 }; }
+            _ => { let s = std::f64::consts::FRAC_1_SQRT_2; let i = r.below(3) as usize; let j = (i + 1) % 3;
+                   v[i] = if r.bool() { s } else { -s }; v[j] = if r.bool() { s } else { -s }; }
+        }
+        v
+    } else { gen_dir3(r, false).normalize() }
+}
+fn gen_unit2(r: &mut Rng, lat: bool) -> d2::Vector<f64> {
+    if lat {
+        *r.pick(&[d2::Vector::new(1.0, 0.0), d2::Vector::new(-1.0, 0.0), d2::Vector::new(0.0, 1.0), d2::Vector::new(-0.0, -1.0),
+                  d2::Vector::new(0.6, 0.8), d2::Vector::new(-0.8, 0.6), d2::Vector::new(0.6, -0.8),
+                  d2::Vector::new(std::f64::consts::FRAC_1_SQRT_2, -std::f64::consts::FRAC_1_SQRT_2)])
+    } else { gen_dir2(r, false).normalize() }
+}
+
+fn hpts3(p: &[d3::Point<f64>]) -> String { format!("{} {}", p.len(), p.iter().map(d3::hp).collect::<Vec<_>>().join(" ")) }
+fn hpts2(p: &[d2::Point<f64>]) -> String { format!("{} {}", p.len(), p.iter().map(d2::hp).collect::<Vec<_>>().join(" ")) }
+fn hidx(i: &[[u32; 3]]) -> String { format!("{} {}", i.len(), i.iter().map(|t| format!("{} {} {}", t[0], t[1], t[2])).collect::<Vec<_>>().join(" ")) }
+
+/// a convex polyhedron as (points, triangle indices) accepted by `from_convex_mesh`
+fn gen_polyhedron(r: &mut Rng, lat: bool) -> (Vec<d3::Point<f64>>, Vec<[u32; 3]>) {
+    let tetra = |r: &mut Rng| {
+        let s = r.pos_extent(true);
+        (vec![d3::Point::new(s, s, s), d3::Point::new(s, -s, -s), d3::Point::new(-s, s, -s), d3::Point::new(-s, -s, s)],
+         vec![[0u32, 1, 2], [0, 3, 1], [0, 2, 3], [1, 3, 2]])
+    };
+    let cand: Vec<d3::Point<f64>> = if lat {
+        match r.below(3) {
+            0 => { // box corners (many ties)
+                let he = d3::gen_he(r, true); let c = d3::gen_v(r, true, 1.0) * 0.25;
+                let mut p = Vec::new();
+                for sx in [-1.0, 1.0] { for sy in [-1.0, 1.0] { for sz in [-1.0, 1.0] {
+                    p.push(d3::Point::new(c.x + sx * he.x, c.y + sy * he.y, c.z + sz * he.z)); } } }
+                p }
+            1 => { // octahedron
+                let he = d3::gen_he(r, true);
+                vec![d3::Point::new(he.x, 0.0, 0.0), d3::Point::new(-he.x, 0.0, 0.0), d3::Point::new(0.0, he.y, 0.0),
+                     d3::Point::new(0.0, -he.y, 0.0), d3::Point::new(0.0, 0.0, he.z), d3::Point::new(0.0, 0.0, -he.z)] }
+            _ => return tetra(r),
+        }
+    } else {
+        let n = 4 + r.below(12) as usize;
+        (0..n).map(|_| d3::gen_p(r, false, 10.0)).collect()
+    };
+    match crate::p3::transformation::try_convex_hull(&cand) {
+        Ok((p, i)) if s3::ConvexPolyhedron::from_convex_mesh(p.clone(), &i).is_some() => (p, i),
+        _ => tetra(r),
+    }
+}
+/// a convex polygon (counter-clockwise) accepted by `from_convex_polyline_unmodified`
+fn gen_polygon(r: &mut Rng, lat: bool) -> Vec<d2::Point<f64>> {
+    let cand: Vec<d2::Point<f64>> = if lat {
+        match r.below(3) {
+            0 => { let he = d2::gen_he(r, true); let c = d2::gen_v(r, true, 1.0) * 0.25;
+                   vec![d2::Point::new(c.x + he.x, c.y + he.y), d2::Point::new(c.x - he.x, c.y + he.y),
+                        d2::Point::new(c.x - he.x, c.y - he.y), d2::Point::new(c.x + he.x, c.y - he.y)] }
+            1 => { let he = d2::gen_he(r, true);
+                   vec![d2::Point::new(he.x, 0.0), d2::Point::new(0.0, he.y), d2::Point::new(-he.x, 0.0), d2::Point::new(0.0, -he.y)] }
+            _ => { let s = r.pos_extent(true); // hexagon-like lattice polygon
+                   vec![d2::Point::new(2.0 * s, 0.0), d2::Point::new(s, s), d2::Point::new(-s, s), d2::Point::new(-2.0 * s, 0.0),
+                        d2::Point::new(-s, -s), d2::Point::new(s, -s)] }
+        }
+    } else {
+        let n = 3 + r.below(10) as usize;
+        (0..n).map(|_| d2::gen_p(r, false, 10.0)).collect()
+    };
+    let hull = crate::p2::transformation::convex_hull(&cand);
+    if hull.len() >= 3 && s2::ConvexPolygon::from_convex_polyline_unmodified(hull.clone()).is_some() { hull }
+    else { vec![d2::Point::new(1.0, 0.0), d2::Point::new(0.0, 1.0), d2::Point::new(-1.0, -1.0)] }
+}
+
+/// points for segments/triangles/capsules: lattice points give many exact ties with lattice directions
+fn gp3(r: &mut Rng, lat: bool) -> d3::Point<f64> { d3::gen_p(r, lat, 10.0) }
+fn gp2(r: &mut Rng, lat: bool) -> d2::Point<f64> { d2::gen_p(r, lat, 10.0) }
 
 pub fn gen(r: &mut Rng, thorough: bool) -> Vec<(String, String)> {
-    let n = if thorough { 4000 } else { 400 };
-    let mut v = Vec::new();
+    let n = if thorough { 2000 } else { 200 };
+    let mut v: Vec<(String, String)> = Vec::new();
     for it in 0..n {
         let lat = it % 2 == 0;
-        let d = gen_dir3(r, lat); let dd = gen_dir2(r, lat);
-        let he = d3::gen_he(r, lat); let he2 = d2::gen_he(r, lat);
-        v.push(("cuboid_local".into(), format!("{} {}", d3::hv(&he), d3::hv(&d))));
-        v.push(("cuboid2_local".into(), format!("{} {}", d2::hv(&he2), d2::hv(&dd))));
+        // every mode of a 3-D shape: `sa` = hex-encoded shape arguments
+        let mut all3 = |r: &mut Rng, v: &mut Vec<(String, String)>, shape: &str, sa: String| {
+            let d = gen_dir3(r, lat); let u = gen_unit3(r, lat); let m = d3::gen_iso(r, lat, 100.0);
+            v.push((format!("{}_local", shape), format!("{} {}", sa, d3::hv(&d))));
+            v.push((format!("{}_toward", shape), format!("{} {}", sa, d3::hv(&u))));
+            v.push((format!("{}_posed", shape), format!("{} {} {}", sa, d3::hiso(&m), d3::hv(&gen_dir3(r, lat)))));
+            v.push((format!("{}_ptoward", shape), format!("{} {} {}", sa, d3::hiso(&m), d3::hv(&gen_unit3(r, lat)))));
+        };
+        let r1 = r.pos_extent(lat); let r2 = r.pos_extent(lat); let r3 = r.pos_extent(lat);
+        let he = d3::gen_he(r, lat);
+        all3(r, &mut v, "ball", hx(r1));
+        all3(r, &mut v, "cuboid", d3::hv(&he));
+        let (a, b, c) = (gp3(r, lat), gp3(r, lat), gp3(r, lat));
+        // degenerate-but-valid: coincident end points / flat triangles once in a while
+        let b = if r.below(16) == 0 { a } else { b };
+        all3(r, &mut v, "capsule", format!("{} {} {}", d3::hp(&a), d3::hp(&b), hx(r1)));
+        all3(r, &mut v, "segment", format!("{} {}", d3::hp(&a), d3::hp(&b)));
+        all3(r, &mut v, "triangle", format!("{} {} {}", d3::hp(&a), d3::hp(&b), d3::hp(&c)));
+        all3(r, &mut v, "cone", format!("{} {}", hx(r2), hx(r3)));
+        all3(r, &mut v, "cylinder", format!("{} {}", hx(r2), hx(r3)));
+        let (pp, pi) = gen_polyhedron(r, lat);
+        let ph = format!("{} {}", hpts3(&pp), hidx(&pi));
+        all3(r, &mut v, "polyhedron", ph.clone());
+        // raw point clouds (not necessarily convex position, duplicates allowed)
+        let nc = 1 + r.below(10) as usize;
+        let mut cloud: Vec<d3::Point<f64>> = (0..nc).map(|_| gp3(r, lat)).collect();
+        if nc > 2 && r.bool() { let k = r.below(nc as u64) as usize; cloud[k] = cloud[0]; }
+        let d = gen_dir3(r, lat);
+        v.push(("cloud_id".into(), format!("{} {}", hpts3(&cloud), d3::hv(&d))));
+        v.push(("cloud_point".into(), format!("{} {}", hpts3(&cloud), d3::hv(&d))));
+        v.push(("cloud_id".into(), format!("{} {}", hpts3(&pp), d3::hv(&gen_dir3(r, lat)))));
+        let br = r.pos_extent(lat);
+        all3(r, &mut v, "roundcuboid", format!("{} {}", d3::hv(&he), hx(br)));
+        all3(r, &mut v, "roundtriangle", format!("{} {} {} {}", d3::hp(&a), d3::hp(&b), d3::hp(&c), hx(br)));
+        all3(r, &mut v, "roundcylinder", format!("{} {} {}", hx(r2), hx(r3), hx(br)));
+        all3(r, &mut v, "roundcone", format!("{} {} {}", hx(r2), hx(r3), hx(br)));
+        all3(r, &mut v, "roundpolyhedron", format!("{} {}", ph, hx(br)));
+        all3(r, &mut v, "dilatedcuboid", format!("{} {}", d3::hv(&he), hx(br)));
+        all3(r, &mut v, "dilatedcapsule", format!("{} {} {} {}", d3::hp(&a), d3::hp(&b), hx(r1), hx(br)));
+        all3(r, &mut v, "constantpoint", d3::hp(&a));
+        if it % 4 == 0 { // no shape arguments: the leading space is harmless for the tokenizer
+            let d = gen_dir3(r, lat); let m = d3::gen_iso(r, lat, 100.0);
+            v.push(("constantorigin_local".into(), d3::hv(&d)));
+            v.push(("constantorigin_posed".into(), format!("{} {}", d3::hiso(&m), d3::hv(&d))));
+        }
+        // ---- 2-D
+        let mut all2 = |r: &mut Rng, v: &mut Vec<(String, String)>, shape: &str, sa: String| {
+            let d = gen_dir2(r, lat); let u = gen_unit2(r, lat); let m = d2::gen_iso(r, lat, 100.0);
+            v.push((format!("{}_local", shape), format!("{} {}", sa, d2::hv(&d))));
+            v.push((format!("{}_toward", shape), format!("{} {}", sa, d2::hv(&u))));
+            v.push((format!("{}_posed", shape), format!("{} {} {}", sa, d2::hiso(&m), d2::hv(&gen_dir2(r, lat)))));
+            v.push((format!("{}_ptoward", shape), format!("{} {} {}", sa, d2::hiso(&m), d2::hv(&gen_unit2(r, lat)))));
+        };
+        let he2 = d2::gen_he(r, lat);
+        let (a2, b2, c2) = (gp2(r, lat), gp2(r, lat), gp2(r, lat));
+        let b2 = if r.below(16) == 0 { a2 } else { b2 };
+        all2(r, &mut v, "ball2", hx(r1));
+        all2(r, &mut v, "cuboid2", d2::hv(&he2));
+        all2(r, &mut v, "capsule2", format!("{} {} {}", d2::hp(&a2), d2::hp(&b2), hx(r1)));
+        all2(r, &mut v, "segment2", format!("{} {}", d2::hp(&a2), d2::hp(&b2)));
+        all2(r, &mut v, "triangle2", format!("{} {} {}", d2::hp(&a2), d2::hp(&b2), d2::hp(&c2)));
+        let pg = gen_polygon(r, lat);
+        all2(r, &mut v, "polygon", hpts2(&pg));
+        all2(r, &mut v, "roundcuboid2", format!("{} {}", d2::hv(&he2), hx(br)));
+        all2(r, &mut v, "roundpolygon", format!("{} {}", hpts2(&pg), hx(br)));
     }
     v
 }
